@@ -200,7 +200,10 @@ def _worker(item):
     if kind == "selftest":
         return ("selftest", j, selftest(h, seed=_G["seed"]))
     st = Stats()
-    _explore_subtree(h, prefix, bound, st, _G["budget"])
+    try:
+        _explore_subtree(h, prefix, bound, st, _G["budget"])
+    except vsched.DivergenceError as e:
+        return ("selftest", j, f"divergence in {h.name} below prefix {list(prefix)}: {e}")
     return ("stats", j, st)
 
 
